@@ -6,19 +6,23 @@ Import ListNotations.
 Open Scope Z_scope.
 
 (* ------------------------------------------------------------------ validate stream *)
-Definition prop_validate (inp obs : list Z) : Z :=
+Definition prop_validate_body (inp obs : list Z) : Z :=
   let '(g, op, old, new) := dec_validate inp in
   match obs with
   | a :: _ => validate_code op old new (zb a)
   | [] => 20
   end.
+Definition prop_validate (inp obs : list Z) : Z :=
+  match untag TAG_VALIDATE inp with Some body => prop_validate_body body obs | None => 0 end.
 
 (* non-trivial: the pod carries a recognised QoS class or asks for batch resources, i.e. at
    least one rule of the protocol is exercised *)
-Definition nontrivial_validate (inp : list Z) : bool :=
+Definition nontrivial_validate_body (inp : list Z) : bool :=
   let '(g, op, old, new) := dec_validate inp in
   negb (seqb (qos_raw new) QoSNone)
   || negb ((pod_request new R_BCPU =? 0) && (pod_request new R_BMEM =? 0)).
+Definition nontrivial_validate (inp : list Z) : bool :=
+  match untag TAG_VALIDATE inp with Some body => nontrivial_validate_body body | None => false end.
 
 (* ------------------------------------------------------------------ mutate stream *)
 Definition identity_enc (p : pod) : list Z :=
@@ -28,7 +32,7 @@ Definition identity_enc (p : pod) : list Z :=
    mutated" (the patch would be dropped); 11 amounts/erasure/frame; 13 annotation;
    14 re-admission as Update changes something; 15 re-admission as Create changes something
    although the profiles leave the pod's identity and the translation switch alone *)
-Definition prop_mutate (inp obs : list Z) : Z :=
+Definition prop_mutate_body (inp obs : list Z) : Z :=
   let '(e, ps, p) := dec_mutate inp in
   let '(b1, r1) := take_list obs in
   match b1 with
@@ -54,6 +58,9 @@ Definition prop_mutate (inp obs : list Z) : Z :=
   | _ => 20
   end.
 
+Definition prop_mutate (inp obs : list Z) : Z :=
+  match untag TAG_MUTATE inp with Some body => prop_mutate_body body obs | None => 0 end.
+
 Definition has_native (c : container) : bool :=
   match rget R_CPU (c_req c), rget R_MEM (c_req c), rget R_CPU (c_lim c), rget R_MEM (c_lim c) with
   | None, None, None, None => false
@@ -62,7 +69,7 @@ Definition has_native (c : container) : bool :=
 
 (* non-trivial: the admission succeeds, the translation runs for a mid/batch pod and some
    container actually declares native cpu or memory *)
-Definition nontrivial_mutate (inp : list Z) : bool :=
+Definition nontrivial_mutate_body (inp : list Z) : bool :=
   let '(e, ps, p) := dec_mutate inp in
   match admit_pod e OP_CREATE ps p with
   | None => false
@@ -71,3 +78,5 @@ Definition nontrivial_mutate (inp : list Z) : bool :=
       && tier_class (pclass_with_default (with_identity p1 p))
       && existsb has_native (p_ctrs p ++ p_init p)
   end.
+Definition nontrivial_mutate (inp : list Z) : bool :=
+  match untag TAG_MUTATE inp with Some body => nontrivial_mutate_body body | None => false end.
